@@ -288,7 +288,7 @@ def run(ctx):
     if not okc:
         res.add(Finding('C20', 'C20.c', 'R-AGREE', ser.file, ser.qualname, ser.node.lineno, 'codec pair', 'serialise and deserialise are not the b64encode / b64decode pair'))
     # whole content once: encode applied to the `content` parameter, not inside a loop; the reader reads the file with one read()
-    whole = bool(enc) and enc[0].args and isinstance(enc[0].args[0], ast.Name) and enc[0].args[0].id == ser.params[0] and \
+    whole = bool(enc) and enc[0].args and isinstance(enc[0].args[0], ast.Name) and enc[0].args[0].id == [q for q in ser.params if q != 'self'][0] and \
         not any(isinstance(l, (ast.For, ast.While, ast.ListComp, ast.GeneratorExp)) for l in ast.walk(ser.node))
     reach = [icpt]
     for m in reach:
@@ -330,7 +330,7 @@ def run(ctx):
         return out
     des_seed = [n.targets[0].id for n in walk_own(des.node) if isinstance(n, ast.Assign) and isinstance(n.targets[0], ast.Name) and
                 any(isinstance(x, ast.Subscript) for x in ast.walk(n.value))]
-    ts, td = transforms(ser, ser.params[:1]), transforms(des, des_seed)
+    ts, td = transforms(ser, [q for q in ser.params if q != 'self'][:1]), transforms(des, des_seed)
     inv = {'compress': 'decompress', 'decompress': 'compress'}
     sym_ok = sorted(t[1] for t in ts) == sorted(inv.get(t[1], '?') for t in td) and not any(t[2] for t in ts + td)
     cc.instance('no conditional / unpaired value transformation beside base64 (serialise %s, deserialise %s)' % ([t[1] for t in ts], [t[1] for t in td]),
